@@ -15,7 +15,7 @@ __BEGIN_DECLS
 
     @param data - входной буффер
     @param size - длина входного буффер
-    @param outdata - выходной буффер (рекомендованная длина 2*size+2)
+    @param outdata - выходной буффер (необходимая длина в худшем случае 2*size+4)
     @return результирующая длина пакета.
  */
 int gstuffing_v1(char *data, int size, char *outdata);
